@@ -162,9 +162,9 @@ Theorem C16_canonical_v1_is_run : forall cap sc,
   V1.run cspec cv cap (V1.init cspec) (rev acc) = Some st.
 Proof. exact P1.exec_is_run. Qed.
 
-Theorem C16_canonical_v2_is_run : forall sc,
-  let '(_, st, acc) := X2.exec sc in
-  V2.run cspec cv true (V2.init cspec) (rev acc) = Some st.
+Theorem C16_canonical_v2_is_run : forall ad sc,
+  let '(_, st, acc) := X2.exec ad sc in
+  V2.run cspec cv ad (V2.init cspec) (rev acc) = Some st.
 Proof. exact P2.exec_is_run. Qed.
 
 (* the oracle's matcher decides exactly the sub-sequence / prefix relations of the theorems *)
@@ -201,12 +201,12 @@ Example ex_v1_result : X1.result 16 ex_sc =
   [[0; 1; 2; 3; 4; 9; 10; 11; 12; 13; 14; 15; 16; 17; 18; 19; 20; 21; 22; 23; 24; 25; 26; 27];
    [0; 2; 4; 10; 12; 14; 16; 18; 20; 22; 24]; [26]].
 Proof. vm_compute. reflexivity. Qed.
-Example ex_v2_result : X2.result ex_sc =
+Example ex_v2_result : X2.result true ex_sc =
   [[0; 1; 2; 3; 4; 5; 6; 7; 8; 9; 10; 11; 12; 13; 14; 15; 16; 17; 18; 19; 20; 21; 22; 23; 24; 25; 26; 27];
    [0; 2; 4; 6; 8; 10; 12; 14; 16; 18; 20; 22; 24]; [26]].
 Proof. vm_compute. reflexivity. Qed.
 Example ex_oracle : check_C16 false 16 ex_sc (X1.result 16 ex_sc) = true
-                 /\ check_C16 true 16 ex_sc (X2.result ex_sc) = true
+                 /\ check_C16 true 16 ex_sc (X2.result true ex_sc) = true
                  /\ check_C16 true 16 ex_sc (X1.result 16 ex_sc) = false       (* a skipped item is rejected for v2 *)
                  /\ check_C16 false 16 ex_sc [[0; 1; 1]; []; []] = false        (* a duplicate is rejected *)
                  /\ check_C16 false 16 ex_sc [[1; 0]; []; []] = false.          (* a reordering is rejected *)
@@ -227,7 +227,7 @@ Example ex_starting_queued :
   /\ (let '(_, st, _) := X1.exec 16 ex_starting in c_mbox (V1.absv cspec 0 0 st)) = [0; 1; 2; 3; 4]
   /\ X1.result 16 (mkScen [] (sc_ops ex_starting ++ [OStart 0] ++ burst 5 2 ++ [OSettle]))
      = [[0; 1; 2; 3; 4; 5; 6]; [0; 1; 2; 3; 4; 5; 6]]
-  /\ X2.result (mkScen [] (sc_ops ex_starting ++ [OStart 0] ++ burst 5 2 ++ [OSettle]))
+  /\ X2.result true (mkScen [] (sc_ops ex_starting ++ [OStart 0] ++ burst 5 2 ++ [OSettle]))
      = [[0; 1; 2; 3; 4; 5; 6]; [0; 1; 2; 3; 4; 5; 6]]
   /\ X1.result 16 (mkScen [] (sc_ops ex_starting ++ [OFailStart 0] ++ burst 5 2 ++ [OSettle]))
      = [[]; [0; 1; 2; 3; 4; 5; 6]].
@@ -253,18 +253,29 @@ Proof. vm_compute. repeat split; reflexivity. Qed.
    once before: all three arrive, in both ports, and the canonical run ends with LEnd *)
 Definition ex_drop := mkScen [] [OStart 0; OSub 0 ex_all; OSettle; OPub 0; OPub 1; OPub 2; ODrop; OSettle].
 Example ex_drop_drains :
-  X1.result 16 ex_drop = [[0; 1; 2]] /\ X2.result ex_drop = [[0; 1; 2]]
+  X1.result 16 ex_drop = [[0; 1; 2]] /\ X2.result true ex_drop = [[0; 1; 2]]
   /\ In (V1.LEnd 0) (X1.trace 16 ex_drop)
   /\ check_C16 false 16 ex_drop [[0]] = false.
 Proof. vm_compute. repeat split; try reflexivity. tauto. Qed.
 
+(* allow_duplicate_subscription = false under the canonical scheduler: the re-subscription of
+   actor 0 (subscription 2, even only) replaces subscription 0, which stops at that point; the
+   oracle for this configuration accepts it and rejects the allow-duplicates answer *)
+Example ex_v2_nodup :
+  X2.result false ex_sc =
+    [[0; 1; 2; 3; 4; 5; 6; 7; 8; 9; 10; 11; 12; 13; 14; 15; 16; 17; 18; 19; 20; 21; 22; 23; 24];
+     [0; 2; 4; 6; 8; 10; 12; 14; 16; 18; 20; 22; 24]; [26]]
+  /\ check_C16_nodup 16 ex_sc (X2.result false ex_sc) = true
+  /\ check_C16_nodup 16 ex_sc (X2.result true ex_sc) = false.
+Proof. vm_compute. repeat split; reflexivity. Qed.
+
 (* the hypotheses of C16_v2_exact's second part are met: subscription 0 of the example is
    still served, its actor alive, and everything owed has been received *)
 Example ex_v2_active :
-  let '(_, st, _) := X2.exec ex_sc in
+  let '(_, st, _) := X2.exec true ex_sc in
   let x := V2.absv cspec 0 0 st in
   active x = true /\ c_alive x = true /\ c_backlog x = [] /\ c_mbox x = []
-  /\ c_got x = filter_map (cv ex_all) (V2.pubs_after cspec 0 (X2.trace ex_sc)).
+  /\ c_got x = filter_map (cv ex_all) (V2.pubs_after cspec 0 (X2.trace true ex_sc)).
 Proof. vm_compute. repeat split; reflexivity. Qed.
 
 Print Assumptions C16_v1_subsequence.
